@@ -78,6 +78,7 @@ Catalogue ==
   \cup {Call(op, "", x, y, "", "", "") : op \in {"setitem0", "setitemall", "put", "putmask", "fill_diagonal", "clip"}, x \in XS, y \in YS}
   \cup {Call(op, "", x, y, "", "", "") : op \in {"copyto", "concatenate", "dot"}, x \in XS, y \in ArrSlots}
   \cup {Call(op, "", x, y, "", "", "") : op \in {"umul", "udiv"}, x \in USlots, y \in USlots}
+  \cup {Call("aunit", f, x, y, "", "", "") : f \in {"mul", "rmul", "div", "rdiv"}, x \in XS, y \in USlots}
   \cup {Call("upow", "", x, y, "", "", "") : x \in USlots, y \in {"two", "Q"}}
   \cup {Call(op, "", x, "", "", "", "") : op \in {"ubase", "ucoeff", "ucopy", "usimplify"}, x \in USlots}
   \cup {Call("gufunc", f, x, y, "", "", e) : f \in GUfuncs, x \in GX, y \in GY, e \in {"call", "outer"}}
